@@ -21,6 +21,14 @@
 (*   client's own query already carries a client-subnet option, whether    *)
 (*   it is kept or replaced is not dictated (only the single OPT is).      *)
 (*                                                                         *)
+(*   Delivery: a POST body arrives through the HTTP body reader, framed by  *)
+(*   Content-Length or chunked.  If fewer bytes arrive than were declared   *)
+(*   (sender gone, connection reset, chunked body without its last chunk)   *)
+(*   the bytes at hand are NOT the client's message — wherever the cut      *)
+(*   falls, also on a DNS record boundary where the prefix happens to parse *)
+(*   — and the request is rejected: forwarded = the complete query, or      *)
+(*   nothing.                                                               *)
+(*                                                                         *)
 (* Layer M: mod_doh.RequestToDnsMsg as implemented (requestToMsgGet,       *)
 (* requestToMsgPost, setClientSubnet), two steps: Decode, AddSubnet.       *)
 (***************************************************************************)
@@ -37,12 +45,19 @@ Msgs    == {"valid", "short", "garbage"}
 Cfams   == {"v4", "v4in16", "v6"}        \* v4in16: an IPv4 address held as 16 bytes (net.ParseIP)
 Vias    == {"remote", "client"}
 Ednss   == {"none", "opt", "optdo", "cookie", "ecs"}
+Frames  == {"cl", "chunked"}               \* how a POST body is framed: Content-Length / chunked
+\* complete; the body ends early exactly before the last DNS record (after the 12-byte header if there
+\* is no record behind the question); ends one byte early; the connection is reset after half of it
+Delivs  == {"complete", "cutrr", "cutmid", "reset"}
 
 SizeOf(c) == CASE c = "small" -> 35 [] c = "limit" -> Limit [] c = "over1" -> Limit + 1
                [] c = "overrr" -> Limit + 51 [] c = "huge" -> 2 * Limit + 77
 
+InD(m, e, ct, sz, msg, cf, via, ed, fr, dl) ==
+  [method |-> m, enc |-> e, ctype |-> ct, size |-> sz, msg |-> msg, cfam |-> cf, via |-> via, edns |-> ed,
+   frame |-> fr, deliv |-> dl]
 In(m, e, ct, sz, msg, cf, via, ed) ==
-  [method |-> m, enc |-> e, ctype |-> ct, size |-> sz, msg |-> msg, cfam |-> cf, via |-> via, edns |-> ed]
+  InD(m, e, ct, sz, msg, cf, via, ed, IF m = "GET" THEN "-" ELSE "cl", IF m = "GET" THEN "-" ELSE "complete")
 
 \* the input space: GET varies the encoding, POST the content type and the size; a broken message
 \* only in the otherwise regular request
@@ -54,6 +69,9 @@ Inputs ==
   \cup {In("POST", "-", ct, sz, "valid", a[1], a[2], ed) : ct \in Ctypes, sz \in Sizes, a \in addr, ed \in Ednss}
   \cup {In("POST", "-", "dns", "small", g, a[1], a[2], "none") : g \in Msgs, a \in addr}
   \cup {In("PUT", "-", "dns", "small", "valid", a[1], a[2], "none") : a \in addr}
+  \* the regular POST (within the limit) under every framing and every way the body can end
+  \cup {InD("POST", "-", "dns", sz, "valid", a[1], a[2], ed, fr, dl) :
+          sz \in {"small", "limit"}, a \in addr, ed \in Ednss, fr \in Frames, dl \in Delivs}
 
 ------------------------------------------------------------------------------
 (* Layer P                                                                  *)
@@ -62,6 +80,7 @@ MustReject(i) ==
   \/ i.method = "GET" /\ i.enc \in {"bad", "missing", "empty"}
   \/ i.msg # "valid"
   \/ i.method = "POST" /\ SizeOf(i.size) > Limit
+  \/ i.deliv \notin {"-", "complete"}                   \* not the client's message: never a prefix of it
 Either(i) ==
   \/ i.method = "GET" /\ i.enc \in {"padded", "std", "dup"}
   \/ i.method = "POST" /\ i.ctype \in {"other", "none"}
@@ -88,7 +107,8 @@ Init == in \in Inputs /\ stage = "request" /\ decoded = FALSE /\ fwd = None
 Decode ==
   /\ stage = "request"
   /\ LET ok == CASE in.method = "GET"  -> in.enc = "ok" /\ in.msg = "valid"      \* one dns value, RawURLEncoding
-                 [] in.method = "POST" -> SizeOf(in.size) <= Limit /\ in.msg = "valid"   \* limit+1 read, no content-type test
+                 [] in.method = "POST" -> /\ in.deliv = "complete"       \* the body reader's error ends ReadAll
+                                          /\ SizeOf(in.size) <= Limit /\ in.msg = "valid"   \* no content-type test
                  [] OTHER              -> FALSE
      IN decoded' = ok /\ stage' = IF ok THEN "message" ELSE "rejected"
   /\ UNCHANGED << in, fwd >>
